@@ -3,6 +3,7 @@ import random
 
 from common import call, main, rng_of
 import gencommon as g
+from optcommon import skey
 import c09
 
 from predicate.generator.generate_false import generate_false
@@ -34,7 +35,7 @@ def correspondence(payload):
 
 def search(payload):
     deep = payload.get("deep") or payload["tier"] == "thorough"
-    preds = g.grid_false(payload["tier"])
+    preds = g.grid_false(payload["tier"]) + g.search_extra("false")
     n_values = 60 if deep else 25
     fails, known_hits, n = [], [], 0
     for seed in range(3 if deep else 1):
@@ -48,7 +49,7 @@ def search(payload):
                 n += 1
                 k, r = call(p, v)
                 if k != "ok" or r:
-                    rec = {"p": repr(p), "position": i, "value": repr(v), "p(value)": (repr(r) if k == "ok" else f"raises {r}")}
+                    rec = {"p": repr(p), "p_structure": skey(p), "position": i, "value": repr(v), "p(value)": (repr(r) if k == "ok" else f"raises {r}")}
                     if k == "raise" and any(isinstance(t, (PP.AndPredicate, PP.OrPredicate)) for t in g.subterms(p)):
                         known_hits.append({"id": 14, "p": repr(p)})
                     else:
@@ -66,4 +67,5 @@ def replay(payload):
     return {"fails": True, "input": payload["replay"].get("input")}
 
 
-main({"correspondence": correspondence, "search": search, "replay": replay})
+if __name__ == "__main__":
+    main({"correspondence": correspondence, "search": search, "replay": replay})
